@@ -99,6 +99,15 @@ def Cfg.serializeOf (cfg : Cfg) (scalar : String) : Option String :=
   | some d => d.serializeName
   | none => none
 
+def Cfg.isScalar (cfg : Cfg) (n : String) : Bool :=
+  match cfg.schema.get? n with
+  | some .scalar => true
+  | _ => false
+
+/-- the `serialize` function configured for the scalar a type is built on, if any -/
+def Cfg.serOfType (cfg : Cfg) (t : GT) : Option String :=
+  if cfg.isScalar t.base then cfg.serializeOf t.base else none
+
 def Cfg.fieldsOf (cfg : Cfg) (cls : String) : List IField :=
   match cfg.schema.get? cls with
   | some (.input fs) => fs
@@ -142,6 +151,39 @@ mutual
     | _, _ => []
 end
 
+/-- per variable of an operation (`defs`, aligned with the caller's assignment): the value the
+    resolver must receive — the intended value of a given argument; for an omitted one the variable's
+    declared default if there is one, otherwise the variable is absent -/
+def intendedVars (cfg : Cfg) (fns : UserFns) : List IField → List AV → List (String × J)
+  | d :: ds, v :: vs =>
+    if v.isUnset then
+      match d.default with
+      | some x => (d.name, x) :: intendedVars cfg fns ds vs
+      | none => intendedVars cfg fns ds vs
+    else (d.name, intended cfg fns v) :: intendedVars cfg fns ds vs
+  | _, _ => []
+
+/-! ### the serialize calls a value is entitled to (C07): one per non-null occurrence -/
+
+mutual
+  /-- one `serialize(value)` call per non-null custom-scalar leaf whose scalar is configured with
+      `serialize`, in depth-first order; nothing for `None`, unset fields, omitted arguments -/
+  def serCalls (cfg : Cfg) : AV → List Call
+    | .custom sc j =>
+      match cfg.serializeOf sc with
+      | some f => [⟨f, .leaf (some j)⟩]
+      | none => []
+    | .list xs => serCallsList cfg xs
+    | .model _ fields => serCallsFields cfg fields
+    | _ => []
+  def serCallsList (cfg : Cfg) : List AV → List Call
+    | [] => []
+    | x :: xs => serCalls cfg x ++ serCallsList cfg xs
+  def serCallsFields (cfg : Cfg) : List (FieldKey × AV) → List Call
+    | [] => []
+    | (_, v) :: rest => serCalls cfg v ++ serCallsFields cfg rest
+end
+
 /-! ### schema-valid values -/
 
 /-- a leaf value (not `None`, not a list, not a model) at a named type -/
@@ -154,8 +196,8 @@ def leafOK (cfg : Cfg) (n : String) : AV → Bool
     match cfg.schema.get? n with
     | some (.enum vals) => vals.contains m
     | _ => false
-  | .custom sc _ =>
-    sc == n &&
+  | .custom sc j =>
+    sc == n && !j.isNull &&
     match cfg.schema.get? n with
     | some .scalar => true
     | _ => false
@@ -215,5 +257,12 @@ mutual
       hasFields cfg fs rest
     | _, _ => false
 end
+
+/-- schema-validity of an argument assignment (aligned with the variable definitions): an omitted
+    argument belongs to a nullable variable; a given one is a schema-valid value of the variable's type -/
+def argsValid (cfg : Cfg) : List IField → List AV → Bool
+  | [], [] => true
+  | d :: ds, v :: vs => ((v.isUnset && !d.type.nonNull) || hasType cfg d.type v) && argsValid cfg ds vs
+  | _, _ => false
 
 end Ariadne.ArgValues
